@@ -5,6 +5,7 @@ plus "the reported allocation is a target at the reported distance and bearing",
 (all three metrics; GREAT_CIRCLE with a tolerance)."""
 import json
 import math
+from fractions import Fraction
 import os
 import queue
 import subprocess
@@ -63,6 +64,8 @@ LEVEL_NOTE = ('The model works on integer squared-distance keys; the harness che
               'coordinate handling and the bearing trigonometry are trusted/oracle-checked.')
 
 NWORKERS = 6
+OCAML_PACKAGES = ['coq-core.kernel']     # the bearing model uses PrimFloat
+OCAML_FLAGS = '-rectypes -thread'
 INF = float('inf')
 
 
@@ -227,6 +230,8 @@ def key_of(metric, dx, dy):
 
 def dist32_of_key(metric, k):
     """np.float32(d) of the code for a squared-distance key"""
+    if metric == 'GREAT_CIRCLE':
+        return float(Fraction(k, 2 ** 149))
     if metric == 'MANHATTAN':
         return f32(float(math.isqrt(k)))
     return f32(math.sqrt(float(k)))
@@ -239,6 +244,50 @@ def grid_keys(metric, xs, ys):
 
 
 _KEYMEMO = {}
+
+
+def _f32_from_bits(b):
+    return float(np.array([b], dtype=np.uint32).view(np.float32)[0])
+
+
+def gc_key_of_f32(d):
+    """the GREAT_CIRCLE key of the model (coq/C06/Metric.v): the float32 distance times 2^149"""
+    return int(Fraction(d) * 2 ** 149)
+
+
+def gc_thresholds(md):
+    """(R, M) tokens for GREAT_CIRCLE: smallest float32 distance d with not float32(d**2) < 2*md**2, largest with
+    md*md >= float32(d**2); found by bisection over the (ordered) non-negative float32 numbers"""
+    if md == INF:
+        return 'inf', 'inf'
+
+    def g(b):
+        d = np.float32(_f32_from_bits(b))
+        with np.errstate(over='ignore'):
+            return float(d * d)
+    top = 0x7f800000                        # +inf
+    lo, hi = 0, top                         # first b with not g(b) < 2 md^2
+    while lo < hi:
+        mid = (lo + hi) // 2
+        if g(mid) < md ** 2 * 2.0:
+            lo = mid + 1
+        else:
+            hi = mid
+    R = from_int_tok(gc_key_of_f32(_f32_from_bits(lo))) if lo < top else 'inf'
+    lo, hi = -1, top - 1                    # last b with md*md >= g(b)
+    while lo < hi:
+        mid = (lo + hi + 1) // 2
+        if md * md >= g(mid):
+            lo = mid
+        else:
+            hi = mid - 1
+    M = from_int_tok(gc_key_of_f32(_f32_from_bits(lo))) if lo >= 0 else '-1'
+    return R, M
+
+
+def from_int_tok(n):
+    from harness import xvio
+    return xvio.tok_int(n)
 
 
 def _key_chain(metric, k):
@@ -299,13 +348,17 @@ def model_line(case):
     md = INF if md in ('inf', None) else float(md)
     xs = [int(v) for v in case['xs']]
     ys = [int(v) for v in case['ys']]
-    R, M, ties = key_params(metric, xs, ys, md)
+    if metric == 'GREAT_CIRCLE':
+        R, M = gc_thresholds(md)
+        ties = []
+    else:
+        R, M, ties = key_params(metric, xs, ys, md)
     data = cast_data(case)
     h = len(data)
     w = len(data[0]) if h else 0
     tvt, cellt = xv_tokens(case)
-    return 'prox %d %d %s %s %s %d %s %d %s %d %s %d %d %s' % (
-        2 if metric == 'MANHATTAN' else 0, len(ties), ' '.join(map(str, ties)), R, M,
+    return 'proxd %d %d %s %s %s %d %s %d %s %d %s %d %d %s' % (
+        {'MANHATTAN': 2, 'GREAT_CIRCLE': 1}.get(metric, 0), len(ties), ' '.join(map(str, ties)), R, M,
         len(xs), ' '.join(map(str, xs)), len(ys), ' '.join(map(str, ys)),
         len(tvt), ' '.join(tvt), h, w, ' '.join(cellt))
 
@@ -342,39 +395,65 @@ def same(a, b):
     return a == b
 
 
-def expected_from_model(case, mo):
-    """model output line -> (prox, alloc, dirn) grids of floats"""
+def model_bearings(quads):
+    """_calc_direction of (x1, x2, y1, y2) quadruples through the extracted Coq model (coq/C06/Bearing.v, op `bearing` of
+    the C06 driver); falls back to the Python transcription only if that driver has not been built"""
+    if not quads:
+        return []
+    exe = os.path.join(os.path.dirname(os.path.dirname(os.path.dirname(os.path.abspath(__file__)))), 'build', 'c06', 'driver')
+    if os.path.exists(exe):
+        line = 'bearing %d %s\n' % (len(quads), ' '.join(float(v).hex() for q in quads for v in q))
+        p = subprocess.run([exe], input=line.encode(), stdout=subprocess.PIPE, stderr=subprocess.PIPE, timeout=600)
+        t = p.stdout.decode().split()
+        if len(t) == len(quads) and not (t and t[0] == 'ERR'):
+            return [float('nan') if x == 'nan' else float.fromhex(x) for x in t]
+        raise ValueError('bearing op of the C06 driver failed: %s' % p.stdout.decode()[:100])
+    return [calc_direction(*q) for q in quads]
+
+
+def expected_from_model(case, mo, per=4):
+    """model output line -> (prox, alloc, dirn) grids of floats; per=4: `proxd` output (key row col direction),
+    per=3: key row col only (C07 driver) - the direction then comes from the extracted bearing model"""
     metric = case.get('metric', 'EUCLIDEAN')
     data = cast_data(case)
     h = len(data)
     w = len(data[0]) if h else 0
     t = mo.split()
-    if len(t) != 3 * h * w:
+    if len(t) != per * h * w:
         raise ValueError('model returned %d tokens for %dx%d' % (len(t), h, w))
     xs = [float(v) for v in case['xs']]
     ys = [float(v) for v in case['ys']]
     P, A, D = [], [], []
+    quads, where = [], []
     for r in range(h):
         pr, ar, dr = [], [], []
         for c in range(w):
-            k, tr, tc = (int(x) for x in t[3 * (r * w + c): 3 * (r * w + c) + 3])
+            o = per * (r * w + c)
+            k, tr, tc = (int(x, 0) for x in t[o: o + 3])
             pr.append(float('nan') if k == -1 else (INF if k == -2 else dist32_of_key(metric, k)))
             if tr < 0:
                 ar.append(float('nan'))
                 dr.append(float('nan'))
             else:
                 ar.append(f32(data[tr][tc]))
-                dr.append(calc_direction(xs[c], xs[tc], ys[r], ys[tr]))
+                if per == 4:
+                    dr.append(float('nan') if t[o + 3] == 'nan' else float.fromhex(t[o + 3]))
+                else:
+                    dr.append(None)
+                    quads.append((xs[c], xs[tc], ys[r], ys[tr]))
+                    where.append((r, c))
         P.append(pr)
         A.append(ar)
         D.append(dr)
+    for (r, c), b in zip(where, model_bearings(quads)):
+        D[r][c] = b
     return P, A, D
 
 
-def compare_model(ctx, case, impl, mo, what='numpy'):
+def compare_model(ctx, case, impl, mo, what='numpy', per=4):
     """impl: {'proximity': grid, 'allocation': grid, 'direction': grid} of floats"""
     try:
-        P, A, D = expected_from_model(case, mo)
+        P, A, D = expected_from_model(case, mo, per)
     except Exception as e:
         ctx.violation('correspondence', '%s: model output unusable: %s (%s)' % (what, e, mo[:80]), case)
         return False
@@ -426,6 +505,17 @@ def square_cells(xs, ys):
     return len(d) <= 1
 
 
+KEY_DIR0 = 'direction-zero-for-non-self-target-when-angle-rounds-to-90'
+
+
+def dir0_case():
+    """2x2 raster, x = [0, 1.3349124533715719e-08], y = [0, 1], target at (0,1): for cell (1,0)
+    atan2(1, 1.33e-8) * 57.29578 is exactly 90.0, so _calc_direction returns 90.0 - 90.0 = 0 for a non-self target"""
+    return dict(fn='numpy3', layout='direction-zero-corner', metric='EUCLIDEAN', data=[[0.0, 1.0], [0.0, 0.0]], dtype='float64',
+                xs=[0.0, 1.3349124533715719e-08], ys=[0.0, 1.0], cdtype='float64', ykind='unit', xkind='tiny', tv=[],
+                mode='default', max_distance='inf', no_model=True)
+
+
 def surely_within(dist, md):
     """dist (a float32 distance) is within max_distance beyond any float32 rounding doubt: clearly below it, or exactly
     equal with an exactly representable square (so dist**2 <= max_distance**2 holds in every precision)"""
@@ -473,6 +563,18 @@ def oracle(ctx, case, impl, what='numpy', exact_small=True):
             nearest = min(x[0] for x in ds) if ds else None
             if tgt and not (p == 0.0):
                 return bad('target cell has proximity %r, expected 0' % p, r, c)
+            if tgt and not (d == 0.0):
+                return bad('target cell has direction %r, expected 0 (the cell itself)' % d, r, c)
+            if (not tgt) and d == 0.0:
+                # 0 is reserved for the cell itself.  Known corner: atan2(-dy, dx) * 57.29578 rounds to exactly 90.0
+                zero_key = None
+                for tr, tc in targets:
+                    if math.atan2(-(ys[tr] - ys[r]), xs[tc] - xs[c]) * 57.29578 == 90.0:
+                        zero_key = KEY_DIR0
+                ctx.violation('oracle', '%s: non-target cell has direction 0 (reserved for the target cell itself) at cell '
+                              '(%d,%d) [metric %s]' % (what, r, c, metric),
+                              dict(case, cell=[r, c], proximity=p, allocation=a, direction=d), key=zero_key)
+                return False
             if (not tgt) and p == 0.0:
                 return bad('non-target cell has proximity 0', r, c)
             if math.isnan(p):
@@ -817,7 +919,7 @@ def nontrivial(case):
 def build_cases(ctx, n_main, n_small, n_gc):
     rng = ctx.rng
     cases = [dict(FIXTURE), dict(FIXTURE, max_distance=2.0), dict(FIXTURE, metric='MANHATTAN', max_distance=3.0),
-             dict(WITNESS)] + hard_cases() + precision_cases(rng) + boundary_cases(rng)
+             dict(WITNESS), dir0_case()] + hard_cases() + precision_cases(rng) + boundary_cases(rng)
     for i in range(n_main):
         cases.append(gen_case(rng, i))
     for i in range(n_small):
@@ -842,7 +944,7 @@ def process_results(ctx, cases, results, what='numpy'):
         if errs and any('/' in k for k in errs):
             ctx.violation('oracle', '%s: output dtype is not float32: %r' % (what, errs), case)
         oracle(ctx, case_e, grids, what)
-        if case['metric'] != 'GREAT_CIRCLE' and len(grids) == 3:
+        if len(grids) == 3 and not case.get('no_model'):
             try:
                 lines.append(model_line(case))
                 idx.append((case, grids))
